@@ -64,7 +64,7 @@ func renderHS(hs ws.Handshake) string {
 // ---------------------------------------------------------------------------
 // configurations
 
-var tokenPool = []string{"chat", "superchat", "v1.json", "v2.json", "mqtt", "x", "graphql-ws", "soap"}
+var tokenPool = []string{"chat", "superchat", "v1.json", "v2.json", "mqtt", "x", "graphql-ws", "soap", "Chat", "CHAT", "V1.JSON", "X", "MQTT"}
 
 type offer struct {
 	Name   string
